@@ -237,18 +237,17 @@ _GAP_VALUE = _re.compile(r"(?:[\r\n][:;\\]*#)|(?:///)")
 
 
 def gap_explained(params):
-    """Does one of the syntactic patterns listed in C01/C02 explain the gap?"""
+    """
+    Does one of the syntactic patterns listed in C01/C02 explain the gap?  The patterns
+    are evaluated on the whole parameter as it is written (key and components joined by
+    the ':' separators): a '#' that follows a line break directly or through ':', ';', '\\'
+    characters only (the separators count), three or more consecutive '/', a key containing '#'.
+    """
     for p in params:
         key = p[0]
         if "#" in key or "///" in key:
             return True
-        for i, comp in enumerate(p[1:], start=1):
-            if _GAP_VALUE.search(comp):
-                return True
-            # a component that starts with '#' right after a component boundary that ends in a line break
-            if comp.startswith("#") and i > 1 and p[i - 1][-1:] in ("\n", "\r"):
-                return True
-            # ':' ';' '\' run after a line break at the end of the previous component, then '#'
-            if i > 1 and _re.match(r"[:;\\]*#", comp) and _re.search(r"[\r\n][:;\\]*$", p[i - 1]):
-                return True
+        joined = ":".join(p)
+        if _GAP_VALUE.search(joined):
+            return True
     return False
